@@ -851,16 +851,64 @@ func c26(r *Run) {
 		r.requireEffect(w, "C26.R3", "NewJob:enqueued", nj, "send p0.queue <- alloc(complit)", "!p0.shouldShutdown")
 		// the shutdown test and the enqueue are one atomic step with respect to Stop (which sets the flag and closes the
 		// queue): the send happens with the pool lock held
+		// R7: Stop releases the workers only after the scheduler acknowledged (a job it had already taken runs to
+		// completion on those workers); SerialJob keeps the first error (a nil result never overwrites it)
+		r.rule("C26.R7", "K1", "Stop closes stopWorkers only after the scheduler's acknowledgement; SerialJob.Go records only a non-nil result, once", 2)
+		if stp := r.fn(w, "C26.R7", PW+"Stop"); stp != nil {
+			var ack ssa.Instruction
+			eachInstr(stp, func(i ssa.Instruction) {
+				if u, ok := i.(*ssa.UnOp); ok && u.Op == token.ARROW && strings.HasSuffix(term(u.X), ".ackShutdown") {
+					ack = i
+				}
+			})
+			cl := findEffects(stp, "call builtin.close(p0.stopWorkers)")
+			r.check(ack != nil && len(cl) == 1 && dominatesI(ack, cl[0].Ins), "C26.R7", "Stop:workers-released-after-scheduler-ack", w.rel(stp.Pos()), "", "Stop tells the workers to exit before the scheduler acknowledged the shutdown: a job the scheduler had already taken is never finished (its Wait and Stop itself block)")
+		}
+		if sg := r.fn(w, "C26.R7", "(*"+pkgWorkers+".SerialJob).Go"); sg != nil {
+			okk := true
+			n := 0
+			for _, e := range findEffects(sg, "store p0.err = *") {
+				n++
+				val := strings.TrimPrefix(e.Str, "store p0.err = ")
+				if !(hasStr(e.Conds(), val+" != nil") || hasStr(e.Conds(), "nil != "+val)) || !(hasStr(e.Conds(), "nil == p0.err") || hasStr(e.Conds(), "p0.err == nil")) {
+					okk = false
+				}
+			}
+			r.check(okk && n == 1, "C26.R7", "SerialJob.Go:records-first-non-nil-result", w.rel(sg.Pos()), "", "SerialJob.Go does not record exactly the first non-nil task result: a task that succeeds after another one failed can overwrite the failure (callers run Go from several goroutines)")
+		}
 		// R6: the pool has one error slot for the job in flight: it is cleared only after that job's result was sent
 		// (never by creating another job, which may happen while the first is still running)
 		r.rule("C26.R6", "K3", "ParallelWorkers.err is written only by the worker (first error) and by the dispatcher after the result was sent", 2)
 		{
 			n := 0
+			// the worker and dispatcher goroutines, and helpers that did not exist on the reference tree and are
+			// called only from them
+			var allowedErrWriter func(f *ssa.Function, d int) bool
+			allowedErrWriter = func(f *ssa.Function, d int) bool {
+				name := fnName(f)
+				if strings.Contains(name, "ParallelWorkers).startWorker$") || strings.Contains(name, "ParallelWorkers).processQueue$") {
+					return true
+				}
+				if knownFuncs[name] || f.Parent() != nil || d > maxLiftDepth {
+					return false
+				}
+				callers := 0
+				for _, g := range w.FnsInPkg(pkgWorkers) {
+					if len(callsNamed(g, name)) == 0 {
+						continue
+					}
+					callers++
+					if !allowedErrWriter(g, d+1) {
+						return false
+					}
+				}
+				return callers > 0
+			}
 			for _, fn := range w.FnsInPkg(pkgWorkers) {
 				for _, stI := range fieldStores(fn, pkgWorkers+".ParallelWorkers", "err") {
 					n++
 					name := fnName(fn)
-					okW := strings.Contains(name, "ParallelWorkers).startWorker$") || strings.Contains(name, "ParallelWorkers).processQueue$")
+					okW := allowedErrWriter(fn, 0)
 					r.check(okW, "C26.R6", short(name)+":err-slot-write", r.at(w, stI), "", "the pool's error slot is written in "+short(name)+": the failure recorded for a job still running can be wiped (its Wait then reports success and an invalid signature is accepted)")
 				}
 			}
